@@ -1693,6 +1693,26 @@ def _new_doms(kind, doms, names, rng):
     return out
 
 
+def _warm(fam, p, kind):
+    """The discrete families memoise cell probabilities between queries: fill the caches with the
+    answers for the settings the object has *now* (every pair of a small integer range, all
+    parameters at the same coordinates), so that a later change of settings meets warm caches."""
+    if fam not in DISCRETE:
+        return
+    names = list(p.parameters)
+    if kind == 'intbox':
+        lo, hi = int(math.floor(float(min(p._lowerbnd)))), int(math.ceil(float(max(p._upperbnd))))
+        lo, hi = max(lo, -8), min(hi, 8)
+    else:
+        lo, hi = -4, 4
+    for a in range(lo, hi + 1):
+        for b in range(lo, hi + 1):
+            try:
+                p.logpdf({nm: b for nm in names}, {nm: a for nm in names})
+            except ValueError:
+                pass
+
+
 def build_history(fam, hist, rng, nparams):
     """Bring a real proposal of `fam` into the state at the end of history `hist`.
     Returns dict(R=object under test, T=twin or None, steps=[text], names, kind, doms) or None."""
@@ -1711,12 +1731,15 @@ def build_history(fam, hist, rng, nparams):
     steps = []
 
     def fresh(seed=s0, pattern=pat, doms_=None, **kw):
-        return _hchain(fam, names, doms_ or doms, seed, pattern=pattern, start=start, **kw)
+        ch, p = _hchain(fam, names, doms_ or doms, seed, pattern=pattern, start=start, **kw)
+        _warm(fam, p, kind)
+        return ch, p
 
     def adapted(seed=s0, pattern=pat, k=k1, **kw):
         ch, p = fresh(seed, pattern, **kw)
         for _ in range(k):
             ch.step()
+        _warm(fam, p, kind)
         return ch, p
 
     def said(text):
@@ -2143,8 +2166,9 @@ def _history_law(fam, R, kind, names, doms, rng, unit, stats):
                 eigen_normalisers(fam, R, x, y, cs, cs2, mine, stats)
             pairs = []
         else:
-            cx = sphere_law(fam, R, x, unit['m'], mine, stats)
-            cy = sphere_law(fam, R, y, unit['m'], mine, stats, which=1)
+            ncap, nsec = unit.get('caps', (10, 4))
+            cx = sphere_law(fam, R, x, unit['m'], mine, stats, ncap=ncap, nsec=nsec)
+            cy = sphere_law(fam, R, y, unit['m'], mine, stats, ncap=ncap, nsec=nsec, which=1)
             normaliser_check(fam, R, [(x, cx), (y, cy)], mine, stats)
             symmetric_reported(fam, R, [(x, y)], mine, stats)
             pairs = [(y, x), (x, y), (x, x)]
@@ -2348,24 +2372,27 @@ def plan_units(seed, tier, full=False):
 
 def plan_history_units(seed, quick):
     """Settings histories (own random stream: the units above keep their seeds): every history kind
-    that exists for a family, once in the quick tier, six times with the full grid otherwise."""
+    that exists for a family, once in the quick tier, four times with the full grid otherwise."""
     rng = random.Random(seed * 1000003 + 29)
     units = []
     for fi, fam in enumerate(sorted(F.FAMILIES)):
         cls, kind, lo, hi = F.FAMILIES[fam]
         for hi_, hist in enumerate(history_kinds(fam)):
-            for rep in range(1 if quick else 6):
+            for rep in range(1 if quick else 4):
                 u = dict(kind='settings-history', family=fam, hist=hist, seed=rng.randrange(1 << 30),
-                         N=1500 if quick else 20000, nparams=lo + ((fi + hi_ + rep + seed) % (hi - lo + 1)),
-                         nodes=(16, 16) if quick else (32, 16))
+                         N=1000 if quick else 20000, nparams=lo + ((fi + hi_ + rep + seed) % (hi - lo + 1)),
+                         nodes=(16, 8) if quick else (32, 16))
                 if fam in EIGEN:
                     u['every'] = 15 if quick else 40
                     u['enodes'] = (16, 8) if quick else (32, 16)
-                    if 'bounded' in fam:
-                        u['N'] = 1000 if quick else 20000
+                    if 'bounded' in fam:           # 0.15 ms per draw (numpy.isclose in __contains__)
+                        u['N'] = 800 if quick else 6000
+                        u['enodes'] = (8, 8) if quick else (16, 8)
+                        u['every'] = 15 if quick else 60
                     u['two_points'] = not quick
                 if fam in SPHERE:
                     u['m'] = 10 if quick else 14
+                    u['caps'] = (6, 2) if quick else (10, 4)
                 units.append(u)
     return units
 
